@@ -65,10 +65,13 @@ PROPS = {
                           thm("C04_recorded_despite_panic", "P_C04"), thm("C04_snapshot_stable", "P_C04"),
                           thm("canonical_components", "MockCheck"),
                           thm("moq_template_control_closed", "TmplClosed")]),
-    "C05": dict(kind="mock", files=["P_C05.v", "MockConc.v", "MockConc_Proofs.v", "TmplClosed.v"], need="DB",
+    "C05": dict(kind="mock", files=["P_C05.v", "MockConc.v", "MockConc_Proofs.v", "MockAcct_Proofs.v", "TmplClosed.v"],
+                need="DBARXNC",
                 theorems=[thm("C05_no_data_race", "P_C05"), thm("C05_access_under_lock", "P_C05"),
                           thm("C05_atomic_logs", "P_C05"), thm("C05_snapshots_never_change", "P_C05"),
                           thm("C05_prefix_between_resets", "P_C05"),
+                          thm("C05_every_call_recorded_once", "P_C05"), thm("C05_quiescent", "P_C05"),
+                          thm("C05_count", "P_C05"),
                           thm("moq_template_control_closed", "TmplClosed")]),
     "C06": dict(kind="mock", files=["P_C06.v", "MockConc.v", "MockConc_Proofs.v", "TmplClosed.v"], need="D",
                 theorems=[thm("C06_callback_holds_no_lock", "P_C06"), thm("C06_never_two_locks", "P_C06"),
